@@ -765,36 +765,48 @@ func collectionOf(vm *VM, agg func([]Term, *Env) Term, template, goal, instances
 	}
 
 	return FindAll(vm, atomPlus.Apply(witness, template), g, s, func(env *Env) *Promise {
-		s, _ := slice(s, env)
-		ks := make([]func(context.Context) *Promise, 0, len(s))
-		for len(s) > 0 {
-			var wt Compound
-			wt, s = s[0].(Compound), s[1:]
-			w, t := wt.Arg(0), wt.Arg(1) // W+T
-			wList, tList := []Term{w}, []Term{t}
-			n := 0 // https://github.com/golang/go/wiki/SliceTricks#filter-in-place
-			for _, e := range s {
-				e := e.(Compound)
-				ww, tt := e.Arg(0), e.Arg(1) // WW+TT
-				if variant(ww, w, env) {
-					wList = append(wList, ww)
-					tList = append(tList, tt)
-				} else { // keep
-					s[n] = e
-					n++
-				}
-			}
-			s = s[:n]
-			ks = append(ks, func(context.Context) *Promise {
-				env := env
-				for _, w = range wList {
-					env, _ = env.Unify(witness, w)
-				}
-				return Unify(vm, agg(tList, env), instances, k, env)
-			})
-		}
-		return Delay(ks...)
+		return Delay(func(ctx context.Context) *Promise {
+			return groupByWitness(ctx, vm, agg, witness, s, instances, k, env)
+		})
 	}, env)
+}
+
+// groupByWitness picks the solutions W+T in s of which witnesses W are variants of each other and collects them as one choice.
+func groupByWitness(ctx context.Context, vm *VM, agg func([]Term, *Env) Term, witness, solutions, instances Term, k Cont, env *Env) *Promise {
+	s, _ := slice(solutions, env)
+	ks := make([]func(context.Context) *Promise, 0, len(s))
+	for len(s) > 0 {
+		// Each round compares a witness with all the rest. With many different witnesses, it takes long.
+		if err := ctx.Err(); err != nil {
+			return Error(err)
+		}
+
+		var wt Compound
+		wt, s = s[0].(Compound), s[1:]
+		w, t := wt.Arg(0), wt.Arg(1) // W+T
+		wList, tList := []Term{w}, []Term{t}
+		n := 0 // https://github.com/golang/go/wiki/SliceTricks#filter-in-place
+		for _, e := range s {
+			e := e.(Compound)
+			ww, tt := e.Arg(0), e.Arg(1) // WW+TT
+			if variant(ww, w, env) {
+				wList = append(wList, ww)
+				tList = append(tList, tt)
+			} else { // keep
+				s[n] = e
+				n++
+			}
+		}
+		s = s[:n]
+		ks = append(ks, func(context.Context) *Promise {
+			env := env
+			for _, w = range wList {
+				env, _ = env.Unify(witness, w)
+			}
+			return Unify(vm, agg(tList, env), instances, k, env)
+		})
+	}
+	return Delay(ks...)
 }
 
 func variant(t1, t2 Term, env *Env) bool {
